@@ -369,7 +369,7 @@ pub fn run(ctx: &Ctx, sink: &mut Sink) {
     }
     sink.count("exhaustive_sequence_length", max_len as u64);
     // ---- random longer sessions on 6 names
-    let sessions = ctx.budget(300, 20_000);
+    let sessions = ctx.budget(1500, 30_000);
     let names = ["a", "b", "c", "d", "f", "g"];
     for s in 0..sessions {
         if !ctx.mine(s) {
